@@ -303,7 +303,7 @@ func (c *Ctx) RunTOK(which map[string]bool) {
 	readOnly := c.readRoutineOnly()
 
 	res := &tokResult{edges: map[tokEdge]string{}}
-	for _, fn := range c.funcs {
+	for _, fn := range c.analysed() {
 		if fn.Parent() != nil {
 			// closures are covered through their parent unless started with go
 			if !c.isGoTarget(fn) {
